@@ -1,4 +1,5 @@
 import Sucds.Proofs.SerialStruct
+import Sucds.Proofs.SizeInBytes
 /-! # C08 — serialization round-trips every structure and accounts for every byte
 
 `Codec.Good c Wf` bundles, for every well-formed value `x` (every stored number fits the width it is
@@ -8,8 +9,12 @@ serialized with, i.e. `x` is a value the Rust type can hold):
   bytes written, whatever follows; hence values written back to back are read back in order;
 * `sz  : (c.put x).length = c.size x` — `serialize_into` writes exactly `size_in_bytes()` bytes;
 * `pre` — every strict prefix fails to decode (used by C13).
-The codecs are the models of the `Serializable` impls, in their field order; that the real code writes
-exactly these bytes is checked byte for byte by the correspondence on every run. -/
+The structure codecs (`X.codec`) and the `size_in_bytes` expressions (`X.sizeInBytes`) are **generated from the
+Rust sources** on every run by `tools/gen_codecs.py` (`Sucds/Gen/Codecs.lean`): the struct fields and their types, the
+order in which `serialize_into` writes them, the order and types with which `deserialize_from` reads them (the two
+orders must agree: `X.orders_agree`), and the `size_in_bytes` sum as written. `size_in_bytes_exact` shows that
+expression equals the number of bytes written. The generic `Option`/`Vec`/primitive impls are the hand-written
+combinators; that the real code writes exactly these bytes is also checked byte for byte by the correspondence. -/
 namespace Sucds.C08
 open Sucds Sucds.Codec
 
@@ -27,6 +32,29 @@ theorem holds : Statement :=
   ⟨BV.codec_wf_good, CV.codec_good, R9.codec_good, DA.codec_good, SA.codec_good, EF.codec_good,
    DacB.codec_good, DacO.codec_good, PS.codec_good, WM.codec_good, uint_good, i64_good, bool_good,
    fun _ _ ha => vec_good ha, fun _ _ ha => opt_good ha⟩
+
+/-- `serialize_into` writes exactly `size_in_bytes()` bytes — with `size_in_bytes` the expression written in the source -/
+theorem size_in_bytes_exact :
+    (∀ x : BV, BV.Wf x → (BV.codec.put x).length = BV.sizeInBytes x) ∧
+    (∀ x : CV, CV.Wf x → (CV.codec.put x).length = CV.sizeInBytes x) ∧
+    (∀ x : R9, R9.Wf x → (R9.codec.put x).length = R9.sizeInBytes x) ∧
+    (∀ x : DA, DA.Wf x → (DA.codec.put x).length = DA.sizeInBytes x) ∧
+    (∀ x : SA, SA.Wf x → (SA.codec.put x).length = SA.sizeInBytes x) ∧
+    (∀ x : EF, EF.Wf x → (EF.codec.put x).length = EF.sizeInBytes x) ∧
+    (∀ x : DacB, DacB.Wf x → (DacB.codec.put x).length = DacB.sizeInBytes x) ∧
+    (∀ x : DacO, DacO.Wf x → (DacO.codec.put x).length = DacO.sizeInBytes x) ∧
+    (∀ x : PS, PS.Wf x → (PS.codec.put x).length = PS.sizeInBytes x) ∧
+    (∀ k (x : WM), WM.Wf k x → ((WM.codec k).put x).length = WM.sizeInBytes k x) :=
+  ⟨fun x _ => by rw [BV.sizeInBytes_eq]; exact BV.codec_wf_good.sz x,
+   fun x _ => by rw [CV.sizeInBytes_eq]; exact CV.codec_good.sz x,
+   fun x _ => by rw [R9.sizeInBytes_eq]; exact R9.codec_good.sz x,
+   fun x _ => by rw [DA.sizeInBytes_eq]; exact DA.codec_good.sz x,
+   fun x _ => by rw [SA.sizeInBytes_eq]; exact SA.codec_good.sz x,
+   fun x _ => by rw [EF.sizeInBytes_eq]; exact EF.codec_good.sz x,
+   fun x _ => by rw [DacB.sizeInBytes_eq]; exact DacB.codec_good.sz x,
+   fun x _ => by rw [DacO.sizeInBytes_eq]; exact DacO.codec_good.sz x,
+   fun x _ => by rw [PS.sizeInBytes_eq]; exact PS.codec_good.sz x,
+   fun k x _ => by rw [WM.sizeInBytes_eq]; exact (WM.codec_good k).sz x⟩
 
 /-- values written back to back into one stream are read back in order -/
 theorem back_to_back {α β} {a : Codec α} {b : Codec β} {va vb} (ha : a.Good va) (hb : b.Good vb)
